@@ -51,6 +51,9 @@ def configs(tier, seed):
         _cfg((4, 4, 2), [(2, 2, 2)], 1, "uint16", "uint16", dlay="sharded", shspec=(2, 0, 0, "gzip", "raw"), cost=3),
         _cfg((4, 2, 2), [(2, 2, 2)], 1, "uint8", "uint8", dlay="sharded", shspec=(1, 1, 1, "gzip", "gzip"), cost=3),
         _cfg((4, 2, 2), [(2, 2, 2)], 1, "uint8", "uint16", slay="sharded", dlay="gzip", shspec=(1, 0, 0, "gzip", "gzip"), cost=3),
+        # scales stored with two chunk sizes side by side (the second not a multiple of the first)
+        _cfg((4, 4, 2), [(4, 4, 2)], 1, "uint8", "uint16", dlay="flat", alt_cs={"0": [2, 2, 2]}, copy_info=True, cost=3),
+        _cfg((3, 2, 2), [(2, 2, 2), (2, 1, 1)], 1, "uint16", "uint16", slay="gzip", alt_cs={"0": [3, 1, 1], "1": [1, 1, 1]}, cost=3),
         # strongly anisotropic chunk sizes (every pair of axes differs)
         _cfg((2, 4, 4), [(2, 4, 1)], 1, "uint16", "uint16", dlay="flat"),
         _cfg((4, 2, 4), [(1, 2, 4), (4, 1, 2)], 1, "uint8", "uint8", dlay="gzip"),
@@ -76,7 +79,8 @@ def _info(cfg, dtype, enc, layout):
     size = list(cfg["size"])
     cubic = "sharded" in (cfg["slay"], cfg["dlay"])      # the tool keeps the chunk grid: both sides share the chunk sizes
     for i, cs in enumerate(cfg["cs_list"]):
-        sc = dict(key=f"s{i}", size=list(size), chunk_sizes=[list(cs) if not cubic else [max(cs)] * 3], encoding=enc,
+        alt = (cfg.get("alt_cs") or {}).get(str(i))
+        sc = dict(key=f"s{i}", size=list(size), chunk_sizes=[list(cs) if not cubic else [max(cs)] * 3] + ([list(alt)] if alt else []), encoding=enc,
                   resolution=[2 ** i] * 3, voxel_offset=[0, 0, 0])
         if enc == "compressed_segmentation":
             sc["compressed_segmentation_block_size"] = [2, 2, 2]
@@ -118,12 +122,16 @@ def H_convert(ctx, cfg):
         lvl = SArray.fresh((cfg["C"], Z, Y, X), cfg["sd"], f"v{i}")
         allv.append([x.e for x in lvl.a.ravel()])
         levels.append(lvl)
-        cs = sc["chunk_sizes"][0]
-        for x0 in range(0, X, cs[0]):
-            for y0 in range(0, Y, cs[1]):
-                for z0 in range(0, Z, cs[2]):
-                    cc = (x0, min(x0 + cs[0], X), y0, min(y0 + cs[1], Y), z0, min(z0 + cs[2], Z))
-                    sio.write_chunk(lvl[:, cc[4]:cc[5], cc[2]:cc[3], cc[0]:cc[1]], sc["key"], cc)
+    ctx.input("levels", allv)
+    for i, sc in enumerate(sinfo["scales"]):
+        X, Y, Z = sc["size"]
+        lvl = levels[i]
+        for cs in sc["chunk_sizes"]:         # a scale may be stored with several chunk sizes side by side
+            for x0 in range(0, X, cs[0]):
+                for y0 in range(0, Y, cs[1]):
+                    for z0 in range(0, Z, cs[2]):
+                        cc = (x0, min(x0 + cs[0], X), y0, min(y0 + cs[1], Y), z0, min(z0 + cs[2], Z))
+                        sio.write_chunk(lvl[:, cc[4]:cc[5], cc[2]:cc[3], cc[0]:cc[1]], sc["key"], cc)
     W.finish()
     ctx.input("levels", allv)
     for fid, expr in regions_for(PROPERTY, "convert"):
@@ -166,9 +174,10 @@ def H_convert(ctx, cfg):
     ctx.sample(dict(cfg={k: cfg[k] for k in ("size", "cs_list", "sd", "dd", "senc", "denc", "slay", "dlay", "copy_info", "via_main")}))
     ropts = _opts(cfg["dlay"])
     for i in range(len(want_info["scales"])):
-        got, problems, rinfo = W.read_scale(dst_url, want_info, i, ropts)
+      for ci in range(len(want_info["scales"][i]["chunk_sizes"])):
+        got, problems, rinfo = W.read_scale(dst_url, want_info, i, ropts, cs_index=ci)
         if problems:
-            ctx.fail("destination-chunk-missing-or-unreadable", detail=f"scale {i}: " + "; ".join(problems[:2]))
+            ctx.fail("destination-chunk-missing-or-unreadable", detail=f"scale {i} chunk size {ci}: " + "; ".join(problems[:2]))
             return
         conds = []
         for idx in real_np.ndindex(*got.shape):
@@ -216,12 +225,15 @@ def replay(cfg, cex):
             else:
                 lvl = real_np.array(vals, dtype=real_np.uint64).astype(cfg["sd"]).reshape(cfg["C"], Z, Y, X)
             levels.append(lvl)
-            cs = sc["chunk_sizes"][0]
-            for x0 in range(0, X, cs[0]):
-                for y0 in range(0, Y, cs[1]):
-                    for z0 in range(0, Z, cs[2]):
-                        cc = (x0, min(x0 + cs[0], X), y0, min(y0 + cs[1], Y), z0, min(z0 + cs[2], Z))
-                        sio.write_chunk(lvl[:, cc[4]:cc[5], cc[2]:cc[3], cc[0]:cc[1]], sc["key"], cc)
+            for cs in sc["chunk_sizes"]:
+                for x0 in range(0, X, cs[0]):
+                    for y0 in range(0, Y, cs[1]):
+                        for z0 in range(0, Z, cs[2]):
+                            cc = (x0, min(x0 + cs[0], X), y0, min(y0 + cs[1], Y), z0, min(z0 + cs[2], Z))
+                            try:
+                                sio.write_chunk(lvl[:, cc[4]:cc[5], cc[2]:cc[3], cc[0]:cc[1]], sc["key"], cc)
+                            except Exception as e:
+                                return True, f"writing source chunk {cc} of scale {sc['key']} (chunk sizes {sc['chunk_sizes']}) raised {type(e).__name__}: {e}"
         if cfg["slay"] == "sharded":
             sacc.close()
         if not cfg["copy_info"]:
@@ -245,16 +257,16 @@ def replay(cfg, cex):
         r = pio.get_IO_for_existing_dataset(acc_mod.get_accessor_for_url(dst_url, _opts(cfg["dlay"])))
         for i, sc in enumerate(want_info["scales"]):
             X, Y, Z = sc["size"]
-            cs = sc["chunk_sizes"][0]
-            for x0 in range(0, X, cs[0]):
-                for y0 in range(0, Y, cs[1]):
-                    for z0 in range(0, Z, cs[2]):
-                        cc = (x0, min(x0 + cs[0], X), y0, min(y0 + cs[1], Y), z0, min(z0 + cs[2], Z))
-                        try:
-                            ch = r.read_chunk(sc["key"], cc)
-                        except Exception as e:
-                            return True, f"destination scale {sc['key']} chunk {cc}: {type(e).__name__}: {e}"
-                        want = levels[i][:, cc[4]:cc[5], cc[2]:cc[3], cc[0]:cc[1]].astype(want_info["data_type"])
-                        if ch.shape != want.shape or ch.tobytes() != real_np.ascontiguousarray(want).tobytes():
-                            return True, f"destination scale {sc['key']} chunk {cc} differs from the source"
+            for cs in sc["chunk_sizes"]:
+                for x0 in range(0, X, cs[0]):
+                    for y0 in range(0, Y, cs[1]):
+                        for z0 in range(0, Z, cs[2]):
+                            cc = (x0, min(x0 + cs[0], X), y0, min(y0 + cs[1], Y), z0, min(z0 + cs[2], Z))
+                            try:
+                                ch = r.read_chunk(sc["key"], cc)
+                            except Exception as e:
+                                return True, f"destination scale {sc['key']} chunk {cc}: {type(e).__name__}: {e}"
+                            want = levels[i][:, cc[4]:cc[5], cc[2]:cc[3], cc[0]:cc[1]].astype(want_info["data_type"])
+                            if ch.shape != want.shape or ch.tobytes() != real_np.ascontiguousarray(want).tobytes():
+                                return True, f"destination scale {sc['key']} chunk {cc} differs from the source"
     return False, "conversion preserves all voxels on the real code"
